@@ -87,7 +87,7 @@ func c04Body(modes []c04Mode) func(x *X) {
 	return func(x *X) {
 		mode := modes[x.Choose(len(modes))]
 		script := c04Scripts[x.Choose(len(c04Scripts))]
-		drop := x.Choose(len(script) + 1)  // 0: stay until everything is answered; j: disappear after the j-th frame
+		drop := x.Choose(len(script) + 1) // 0: stay until everything is answered; j: disappear after the j-th frame
 		encName := []string{"", "code", "yield-pb"}[x.Choose(3)]
 		so := mode.so
 		so.enc = encName
